@@ -82,6 +82,62 @@ def from_sim(sims, first_id, rng):
     return out
 
 
+def feats(b):
+    """coverage features of a behaviour (qualified action kinds and consecutive pairs of them); stream
+    existence is tracked so that joins naming missing streams, re-creation with a different partition count,
+    creation of a stream some member already named, restores etc. are told apart"""
+    parts = dict(b['cfg']['parts'])
+    ever = {s: n for s, n in parts.items() if n}
+    named_missing = set()
+    group = False
+    f, prev = set(), None
+    for s in b['steps']:
+        a = s['a']
+        if a == 'GetAssignments':
+            continue
+        q = a
+        if a in ('Join', 'CreateGroup'):
+            miss = [x for x in s['streams'] if not parts.get(x)]
+            q += ':missing' if miss else (':multi' if len(s['streams']) > 1 else '')
+            named_missing.update(miss)
+            if a == 'CreateGroup' and not miss:
+                group = True
+        elif a == 'CreateStream':
+            if s['s'] in named_missing:
+                q += ':named-by-refused-join'
+            elif s['s'] in ever:
+                q += ':recreate-same' if ever[s['s']] == s['n'] else ':recreate-diff'
+            q += ':group' if group else ''
+            parts[s['s']] = ever[s['s']] = s['n']
+        elif a == 'DeleteStream':
+            parts[s['s']] = 0
+            q += ':group' if group else ''
+        elif a == 'Leave':
+            q += ':' + s.get('how', 'leave')
+        f.add(q)
+        if prev:
+            f.add(prev + '>' + q)
+        prev = q
+    return f
+
+
+def quota_cover(pool, n, quota=3):
+    """one pass: keep a behaviour if it shows a feature seen fewer than `quota` times; fill up to n evenly"""
+    seen, keep, rest = {}, [], []
+    for i, b in enumerate(pool):
+        fs = feats(b)
+        if any(seen.get(x, 0) < quota for x in fs):
+            keep.append(i)
+            for x in fs:
+                seen[x] = seen.get(x, 0) + 1
+        else:
+            rest.append(i)
+    if len(keep) < n and rest:
+        step = max(1, len(rest) // (n - len(keep)))
+        keep += rest[::step][:n - len(keep)]
+    return [pool[i] for i in sorted(keep)], len(seen)
+
+
 def nontrivial(b):
     acts = [s['a'] for s in b['steps']]
     return sum(1 for a in acts if a in GROUP_ACTS) >= 2 and ('Leave' in acts or 'DeleteStream' in acts or
@@ -180,20 +236,32 @@ def run(rep, tier, seed, replay):
     if 'Raw_SameEpochSame' not in fres['violated']:
         raise core.Inconclusive('model no longer reproduces the open finding: %s' % fres['out'][-1000:])
     # 2. behaviours: every transition of the small instance + simulation
-    g = graph.tlc_dump('MC_Groups.tla', 'MC_Groups_replay.cfg' if quick else 'MC_Groups_replay_thorough.cfg',
-                       workers=min(core.NCPU, 8), timeout=1500)
+    # MC_Groups_replay_recreate: directed family (one stream deleted, announced, created again with any partition
+    # count, then group operations; 6 steps) - both tiers
+    behaviours, covered, total = [], 0, 0
+    for cfg, consumers in (('MC_Groups_replay.cfg' if quick else 'MC_Groups_replay_thorough.cfg', ['c1', 'c2', 'c3']),
+                           ('MC_Groups_replay_recreate.cfg', ['c1', 'c2'])):
+        g = graph.tlc_dump('MC_Groups.tla', cfg, workers=min(core.NCPU, 8), timeout=1500)
+        gb, cv, tt = from_graph(g, consumers, len(behaviours) + 1, rng)
+        behaviours += gb
+        covered, total = covered + cv, total + tt
     lap('dot dump')
-    behaviours, covered, total = from_graph(g, ['c1', 'c2', 'c3'], 1, rng)
     n_graph = len(behaviours)
-    sims = core.tlc_simulate('MC_Groups.tla', 'Sim_Groups.cfg', 600 if quick else 6000, 14, seed, timeout=1200)
-    behaviours += from_sim(sims, len(behaviours) + 1, rng)
+    # a pool four times as large is simulated; the behaviours to execute are chosen by feature coverage
+    nsim = 600 if quick else 6000
+    sims = core.tlc_simulate('MC_Groups.tla', 'Sim_Groups.cfg', 4 * nsim, 14, seed, timeout=1200)
+    chosen, nfeat = quota_cover(from_sim(sims, 0, rng), nsim)
+    rep.cov['simulation_features_covered'] = nfeat
+    for b in chosen:
+        b['id'] = len(behaviours) + 1
+        behaviours.append(b)
     lap('simulation')
     # 3./4. execute on the real code, TLC judges
     sets = {'direct': behaviours}
     if os.path.isdir(os.path.join(core.HARNESS, 'server', 'c06')) and not os.environ.get('VERIF_C12_NOSERVER'):
-        # real Servers cost ~50 ms per behaviour: a systematic sample of the cover + simulated behaviours
-        sets['server'] = (behaviours[:n_graph][::40] + behaviours[n_graph:][:100] if quick
-                          else behaviours[:n_graph][::20] + behaviours[n_graph:][:2000])
+        # real Servers cost ~50-100 ms per behaviour: a feature-covering sample of everything
+        sets['server'], nf = quota_cover(behaviours, 450 if quick else 5000)
+        rep.cov['server_binding_features_covered'] = nf
         rep.cov['server_binding_behaviours'] = len(sets['server'])
     with core.scratch('c12') as d:
         trs = run_bindings(rep, sets, d)
